@@ -94,19 +94,21 @@ def Limiter.decrease (l : Limiter) (n : Nat) : Limiter :=
   if n ≤ l.usage then { l with usage := l.usage - n }
   else { l with usage := l.usage + (usizeMax + 1) - n }
 
-/-- `Arena::new` (arena.rs:12-31, after the repair of finding F5 in /repo commit 6a70b0c): when the
-    charge fails, or passes but `try_reserve_exact` fails (CapacityOverflow above `isize::MAX`), the
-    charge is rolled back with `decrease_usage(preallocated_size)` and the arena starts with
-    capacity 0; the buffer is then allocated on demand by `append`. -/
+/-- `Arena::new` (arena.rs:12-32, after the repair of finding F5 in /repo commit 6823fd9): the
+    preallocation is first clamped to the limit (`preallocated_size.min(limiter.max())`), then charged
+    and reserved; if that fails (the limiter is already in use, or `try_reserve_exact` fails with
+    CapacityOverflow above `isize::MAX`) the charge is rolled back with `decrease_usage` and the arena
+    starts with capacity 0; the buffer is then allocated on demand by `append`. -/
 def Arena.new (l : Limiter) (prealloc : Nat) : Outcome (Limiter × Arena) :=
-  match l.increase prealloc with
+  let size := min prealloc l.max
+  match l.increase size with
   | .overflow => .panic .usageOverflow
-  | .exceeded l' => .ok (l'.decrease prealloc, { cap := 0, data := [] })
+  | .exceeded l' => .ok (l'.decrease size, { cap := 0, data := [] })
   | .ok l' =>
-    if isizeMax < prealloc then
+    if isizeMax < size then
       -- try_reserve_exact: CapacityOverflow
-      .ok (l'.decrease prealloc, { cap := 0, data := [] })
-    else .ok (l', { cap := prealloc, data := [] })
+      .ok (l'.decrease size, { cap := 0, data := [] })
+    else .ok (l', { cap := size, data := [] })
 
 /-- `Arena::append` (arena.rs:29-52).
     The guard `capacity() - len() < slice.len()` is written `cap < len + |slice|`, which is the same
